@@ -758,6 +758,303 @@ func runDeadDownstream(flood int) (direct string) {
 	return ""
 }
 
+// ---------------------------------------------------------------- scenarios with the library's own timers / deadlines
+
+// miniBroker answers handshakes, opens (alias = order of opening), closes, resumes (always ok) and
+// acknowledges every chunk on reception; it records per stream alias what it received, the resume
+// requests and stays silent on requests marked as such.
+type miniBroker struct {
+	mu       sync.Mutex
+	b        *broker.Broker
+	ids      []uuid.UUID
+	rx       map[uuid.UUID][]uint32 // stream id -> sequence numbers in arrival order
+	aliasOf  map[uint32]uuid.UUID
+	resumes  int
+	noAck    bool
+	gateOpen atomic.Bool
+}
+
+func newMiniBroker() *miniBroker {
+	m := &miniBroker{rx: map[uuid.UUID][]uint32{}, aliasOf: map[uint32]uuid.UUID{}}
+	m.gateOpen.Store(true)
+	m.b = broker.New(func(s *broker.Session, msg message.Message) {
+		switch v := msg.(type) {
+		case *message.ConnectRequest:
+			broker.AcceptConnect(s, v)
+		case *message.UpstreamOpenRequest:
+			if v.SessionID == "silent" {
+				return
+			}
+			m.mu.Lock()
+			id := uuid.New()
+			alias := uint32(len(m.ids))
+			m.ids = append(m.ids, id)
+			m.aliasOf[alias] = id
+			m.mu.Unlock()
+			s.Send(&message.UpstreamOpenResponse{RequestID: v.RequestID, AssignedStreamID: id, AssignedStreamIDAlias: alias, ResultCode: message.ResultCodeSucceeded})
+		case *message.UpstreamResumeRequest:
+			m.mu.Lock()
+			m.resumes++
+			alias := uint32(100 + m.resumes)
+			m.aliasOf[alias] = v.StreamID
+			m.mu.Unlock()
+			s.Send(&message.UpstreamResumeResponse{RequestID: v.RequestID, AssignedStreamIDAlias: alias, ResultCode: message.ResultCodeSucceeded})
+		case *message.UpstreamChunk:
+			m.mu.Lock()
+			id := m.aliasOf[v.StreamIDAlias]
+			m.rx[id] = append(m.rx[id], v.StreamChunk.SequenceNumber)
+			noAck := m.noAck
+			m.mu.Unlock()
+			if !noAck {
+				s.Send(&message.UpstreamChunkAck{StreamIDAlias: v.StreamIDAlias, Results: []*message.UpstreamChunkResult{{SequenceNumber: v.StreamChunk.SequenceNumber, ResultCode: message.ResultCodeSucceeded}}})
+			}
+		case *message.UpstreamCloseRequest:
+			s.Send(&message.UpstreamCloseResponse{RequestID: v.RequestID, ResultCode: message.ResultCodeSucceeded})
+		case *message.DownstreamOpenRequest, *message.UpstreamMetadata:
+			// silent: never answered
+		}
+	})
+	m.b.OnDial = func(idx int, _ transport.DialConfig) error {
+		if idx > 0 && !m.gateOpen.Load() {
+			return errors.New("verif broker: dial refused")
+		}
+		return nil
+	}
+	return m
+}
+
+func (m *miniBroker) received(id uuid.UUID) []uint32 {
+	m.mu.Lock()
+	defer m.mu.Unlock()
+	return append([]uint32(nil), m.rx[id]...)
+}
+
+const timerSlack = 4 * time.Second // generous: the machine is loaded; the library's default interval is 100 ms
+
+// runSharedTimer: upstreams that share the library's DEFAULT flush policy object (no flush-policy
+// option) or one policy object handed to several streams; one of them leaves (Close), optionally
+// after an outage all of them resumed from; the survivor's small write must still be flushed by its
+// own interval timer.
+func runSharedTimer(variant string) (direct string) {
+	m := newMiniBroker()
+	defer m.b.Release()
+	conn, err := iscp.Connect(m.b.Address, broker.TransportName, iscp.WithConnPingInterval(10*time.Millisecond), iscp.WithConnPingTimeout(2*time.Second))
+	if err != nil {
+		return "harness: connect failed: " + err.Error()
+	}
+	defer func() {
+		m.gateOpen.Store(false)
+		ctx, cancel := context.WithTimeout(context.Background(), time.Second)
+		go func() { defer cancel(); conn.Close(ctx) }()
+	}()
+	ctx, cancel := context.WithTimeout(context.Background(), 6*wd)
+	defer cancel()
+	n := 2
+	if strings.Contains(variant, "three") {
+		n = 3
+	}
+	var opts []iscp.UpstreamOption
+	if strings.HasPrefix(variant, "sameobj") {
+		var cfg iscp.UpstreamConfig
+		iscp.WithUpstreamFlushPolicyIntervalOnly(100 * time.Millisecond)(&cfg)
+		opts = append(opts, iscp.WithUpstreamFlushPolicy(cfg.FlushPolicy)) // ONE policy object for all streams
+	}
+	ups := make([]*iscp.Upstream, n)
+	for i := range ups {
+		o := append([]iscp.UpstreamOption{iscp.WithUpstreamQoS(message.QoSReliable), iscp.WithUpstreamCloseTimeout(2 * time.Second)}, opts...)
+		if ups[i], err = conn.OpenUpstream(ctx, fmt.Sprintf("s%d", i), o...); err != nil {
+			return "harness: open failed: " + err.Error()
+		}
+		time.Sleep(3 * time.Millisecond) // sequential opens: each flush loop starts after the previous one
+	}
+	el := 0
+	writeAndExpect := func(i int, what string) string {
+		before := len(m.received(ups[i].ID))
+		el++
+		if err := ups[i].WriteDataPoints(ctx, &message.DataID{Name: "n1", Type: "t"}, &message.DataPoint{ElapsedTime: time.Duration(el), Payload: []byte{byte(el)}}); err != nil {
+			return "harness: write failed: " + err.Error()
+		}
+		t0 := time.Now()
+		if !broker.WaitFor(timerSlack, func() bool { return len(m.received(ups[i].ID)) > before }) {
+			return fmt.Sprintf("%s: a small write to upstream %d was not flushed by its interval timer within %v (default interval 100 ms): %s", variant, i, timerSlack, what)
+		}
+		_ = t0
+		return ""
+	}
+	for i := range ups {
+		if d := writeAndExpect(i, "before any neighbour left"); d != "" {
+			if strings.HasPrefix(d, "harness:") {
+				return d
+			}
+			return d
+		}
+	}
+	leaver := 0
+	if n == 3 {
+		leaver = 1
+	}
+	if strings.Contains(variant, "resume") {
+		// one outage that every stream resumes from
+		m.gateOpen.Store(false)
+		m.b.Current().Link.Sever(memtr.Loud)
+		if !broker.WaitFor(wd, func() bool { return m.b.DialCount.Load() > 1 }) {
+			return "the client never noticed the dead link (shared-timer scenario)"
+		}
+		time.Sleep(5 * time.Millisecond)
+		m.gateOpen.Store(true)
+		if !broker.WaitFor(wd, func() bool { m.mu.Lock(); defer m.mu.Unlock(); return m.resumes >= n }) {
+			return fmt.Sprintf("only %d of %d upstreams sent a resume request after the redial", m.resumes, n)
+		}
+		time.Sleep(20 * time.Millisecond)
+		for i := range ups {
+			if d := writeAndExpect(i, "after all streams resumed from one outage"); d != "" {
+				return d
+			}
+		}
+	}
+	cctx, ccancel := context.WithTimeout(context.Background(), wd)
+	cerr := ups[leaver].Close(cctx)
+	ccancel()
+	if cerr != nil {
+		return "harness: close of the leaving stream failed: " + cerr.Error()
+	}
+	time.Sleep(10 * time.Millisecond)
+	for i := range ups {
+		if i == leaver {
+			continue
+		}
+		if d := writeAndExpect(i, fmt.Sprintf("after upstream %d was closed", leaver)); d != "" {
+			return d
+		}
+	}
+	return ""
+}
+
+// runDeadlineNeighbour: two working upstreams (reliable with an unacknowledged chunk, unreliable
+// with an unacknowledged chunk) on a healthy connection; ANOTHER request (upstream open, downstream
+// open, metadata) with a short deadline is left unanswered by the broker.  The caller gets its
+// deadline error; the neighbours must see nothing: no disconnect, no redial, no resume request,
+// no resumed event, no retransmission, no cleared store.
+func runDeadlineNeighbour(kind string, deadline time.Duration) (direct string) {
+	m := newMiniBroker()
+	defer m.b.Release()
+	var disc, reconn, resumed atomic.Int32
+	store := &countStorage{VerifSentStorage: iscp.VerifNewInmemSentStorage(), stored: make(chan [2]uint64, 64)}
+	conn, err := iscp.Connect(m.b.Address, broker.TransportName, iscp.VerifWithSentStorage(store),
+		iscp.WithConnPingInterval(20*time.Millisecond), iscp.WithConnPingTimeout(5*time.Second),
+		iscp.WithConnDisconnectedEventHandler(iscp.DisconnectedEventHandlerFunc(func(*iscp.DisconnectedEvent) { disc.Add(1) })),
+		iscp.WithConnReconnectedEventHandler(iscp.ReconnectedEventHandlerFunc(func(*iscp.ReconnectedEvent) { reconn.Add(1) })))
+	if err != nil {
+		return "harness: connect failed: " + err.Error()
+	}
+	closing := false
+	defer func() {
+		closing = true
+		ctx, cancel := context.WithTimeout(context.Background(), time.Second)
+		go func() { defer cancel(); conn.Close(ctx) }()
+	}()
+	_ = closing
+	ctx, cancel := context.WithTimeout(context.Background(), 4*wd)
+	defer cancel()
+	onResumed := iscp.WithUpstreamResumedEventHandler(iscp.UpstreamResumedEventHandlerFunc(func(*iscp.UpstreamResumedEvent) { resumed.Add(1) }))
+	a, err := conn.OpenUpstream(ctx, "a", iscp.WithUpstreamFlushPolicyNone(), iscp.WithUpstreamQoS(message.QoSReliable), onResumed)
+	if err != nil {
+		return "harness: open failed: " + err.Error()
+	}
+	bu, err := conn.OpenUpstream(ctx, "b", iscp.WithUpstreamFlushPolicyNone(), iscp.WithUpstreamQoS(message.QoSUnreliable), onResumed)
+	if err != nil {
+		return "harness: open failed: " + err.Error()
+	}
+	m.mu.Lock()
+	m.noAck = true // both streams keep one unacknowledged chunk: a resume would retransmit / clear it
+	m.mu.Unlock()
+	for i, u := range []*iscp.Upstream{a, bu} {
+		if err := u.WriteDataPoints(ctx, &message.DataID{Name: "n1", Type: "t"}, &message.DataPoint{ElapsedTime: time.Duration(i + 1), Payload: []byte{9}}); err != nil {
+			return "harness: write failed: " + err.Error()
+		}
+		if err := u.Flush(ctx); err != nil {
+			return "harness: flush failed: " + err.Error()
+		}
+		if !broker.WaitFor(wd, func() bool { return len(m.received(u.ID)) == 1 }) {
+			return "harness: first chunk never arrived"
+		}
+	}
+	dials0 := m.b.DialCount.Load()
+	// the unanswered request
+	dctx, dcancel := context.WithTimeout(context.Background(), deadline)
+	var rerr error
+	switch kind {
+	case "open-upstream":
+		_, rerr = conn.OpenUpstream(dctx, "silent", iscp.WithUpstreamFlushPolicyNone())
+	case "open-downstream":
+		_, rerr = conn.OpenDownstream(dctx, []*message.DownstreamFilter{message.NewDownstreamFilterAllFor("src")})
+	default:
+		rerr = conn.SendBaseTime(dctx, &message.BaseTime{SessionID: "a", Name: "x", BaseTime: time.Unix(1700000000, 0)})
+	}
+	dcancel()
+	if rerr == nil {
+		return "harness: the unanswered request returned nil"
+	}
+	// give a (wrong) reconnect every chance to happen and to complete
+	time.Sleep(deadline + 250*time.Millisecond)
+	storedB := func() int { mm, _ := store.VerifSentStorage.List(context.Background(), bu.ID); return len(mm) }
+	var bad []string
+	if d := m.b.DialCount.Load(); d != dials0 {
+		bad = append(bad, fmt.Sprintf("the connection was redialled (%d -> %d dials)", dials0, d))
+	}
+	if disc.Load() != 0 || reconn.Load() != 0 {
+		bad = append(bad, fmt.Sprintf("disconnected/reconnected events: %d/%d", disc.Load(), reconn.Load()))
+	}
+	m.mu.Lock()
+	nres := m.resumes
+	m.mu.Unlock()
+	if nres != 0 {
+		bad = append(bad, fmt.Sprintf("%d resume request(s) reached the broker", nres))
+	}
+	if resumed.Load() != 0 {
+		bad = append(bad, fmt.Sprintf("%d resumed event(s)", resumed.Load()))
+	}
+	if r := m.received(a.ID); len(r) != 1 {
+		bad = append(bad, fmt.Sprintf("the reliable neighbour's chunk was received %d times %v", len(r), r))
+	}
+	if storedB() != 1 {
+		bad = append(bad, "the unreliable neighbour's unacknowledged chunk left the sent storage")
+	}
+	// and the neighbours go on working on the same connection
+	m.mu.Lock()
+	m.noAck = false
+	m.mu.Unlock()
+	if len(bad) == 0 {
+		for _, u := range []*iscp.Upstream{a, bu} {
+			if err := u.WriteDataPoints(ctx, &message.DataID{Name: "n1", Type: "t"}, &message.DataPoint{ElapsedTime: 7, Payload: []byte{7}}); err != nil {
+				bad = append(bad, "a neighbour's write failed: "+err.Error())
+				break
+			}
+			fctx, fcancel := context.WithTimeout(context.Background(), wd)
+			ferr := u.Flush(fctx)
+			fcancel()
+			if ferr != nil || !broker.WaitFor(wd, func() bool { return len(m.received(u.ID)) == 2 }) {
+				bad = append(bad, fmt.Sprintf("a neighbour's next chunk did not reach the broker (flush: %v, received %v)", ferr, m.received(u.ID)))
+				break
+			}
+		}
+	}
+	if len(bad) > 0 {
+		return fmt.Sprintf("a %s request with a %v deadline that the broker left unanswered (caller got: %v) disturbed the other streams of the healthy connection: %s", kind, deadline, rerr, strings.Join(bad, "; "))
+	}
+	return ""
+}
+
+func runScen(name, arg string, ms int) string {
+	switch name {
+	case "shared-timer":
+		return runSharedTimer(arg)
+	case "deadline-neighbour":
+		return runDeadlineNeighbour(arg, time.Duration(ms)*time.Millisecond)
+	}
+	return "harness: unknown scenario " + name
+}
+
 func genCase(r *rng.R) *caseIn {
 	n := 2 + r.Intn(2)
 	c := &caseIn{}
@@ -851,7 +1148,18 @@ func main() {
 			Input struct {
 				Scenario string `json:"scenario"`
 				Flood    int    `json:"flood"`
+				Arg      string `json:"arg"`
+				Ms       int    `json:"ms"`
 			} `json:"input"`
+		}
+		if json.Unmarshal(b, &sc) == nil && (sc.Input.Scenario == "shared-timer" || sc.Input.Scenario == "deadline-neighbour") {
+			d := runScen(sc.Input.Scenario, sc.Input.Arg, sc.Input.Ms)
+			w.Add(coqfmt.Case{Term: "mkIsoCase []", Input: sc.Input, Kind: sc.Input.Scenario, Direct: d, Nontrivial: true})
+			if err := w.Flush(*seed, *tier, "replay of a timer/deadline scenario", false, nil); err != nil {
+				fmt.Fprintln(os.Stderr, err)
+				os.Exit(2)
+			}
+			return
 		}
 		if json.Unmarshal(b, &sc) == nil && sc.Input.Scenario == "dead-downstream-flood" {
 			d := runDeadDownstream(sc.Input.Flood)
@@ -992,6 +1300,32 @@ func main() {
 		}
 	}
 	if *replay == "" {
+		type scen struct {
+			name string
+			arg  string
+			ms   int
+		}
+		scens := []scen{{"shared-timer", "default-close", 0}, {"shared-timer", "default-three-close", 0}, {"shared-timer", "sameobj-close", 0},
+			{"shared-timer", "default-resume-close", 0},
+			{"deadline-neighbour", "open-upstream", 150}, {"deadline-neighbour", "open-downstream", 120}, {"deadline-neighbour", "send-metadata", 200}}
+		res := make([]string, len(scens))
+		var swg sync.WaitGroup
+		for i, sc := range scens {
+			swg.Add(1)
+			go func(i int, sc scen) {
+				defer swg.Done()
+				res[i] = runScen(sc.name, sc.arg, sc.ms)
+			}(i, sc)
+		}
+		swg.Wait()
+		for i, sc := range scens {
+			if strings.HasPrefix(res[i], "harness:") {
+				fmt.Fprintln(os.Stderr, res[i])
+				os.Exit(3)
+			}
+			w.Add(coqfmt.Case{Term: "mkIsoCase []", Input: map[string]interface{}{"scenario": sc.name, "arg": sc.arg, "ms": sc.ms},
+				Kind: sc.name, Direct: res[i], Nontrivial: true, Seed: uint64(i)})
+		}
 		for _, flood := range []int{40, 1100} {
 			d := runDeadDownstream(flood)
 			if strings.HasPrefix(d, "harness:") {
@@ -1002,7 +1336,7 @@ func main() {
 				Kind: "dead-downstream-flood", Direct: d, Nontrivial: true, Seed: uint64(flood)})
 		}
 	}
-	rule := "a downstream whose open was refused (its subscriptions stay registered, nobody reads) is flooded with 40 / 1100 chunks, then a live downstream must still get its chunk and a live upstream its ack; the broker gives the first stream STREAM ALIAS 0 (also after a resume); lifecycle operations of a neighbour happen on the same wire connection: an open refused with a zero alias in the response, a resume refused with a zero alias, an application Close while the neighbour's resume request is still unanswered (its close request travels on the new connection where it has no alias entry) - afterwards the alias-0 stream must still send chunks and receive acks. 2-3 upstreams (the first reliable, the others reliable or unreliable) on one connection: interleaved write+flush, per-stream acks, optional close of one stream, optional outage (loud cut, writes of any stream before it is noticed, all streams resume: unreliable ones answered first), more traffic, closes in random order; each stream's observables are compared with its solo run through the same history. non-trivial = every stream has a solo run to compare with; distinct = distinct Coq case terms"
+	rule := "upstreams sharing the library's default flush-policy object (no flush-policy option; real 100 ms ticker) or one policy object passed to all: after a neighbour closes (also after a common outage) a small write to the survivor must still be flushed by its timer; a request (upstream open / downstream open / metadata) with a 120-200 ms deadline left unanswered on a healthy connection must cause no redial, no disconnect/reconnect event, no resume request or event, no retransmission and no cleared store for the neighbours; a downstream whose open was refused (its subscriptions stay registered, nobody reads) is flooded with 40 / 1100 chunks, then a live downstream must still get its chunk and a live upstream its ack; the broker gives the first stream STREAM ALIAS 0 (also after a resume); lifecycle operations of a neighbour happen on the same wire connection: an open refused with a zero alias in the response, a resume refused with a zero alias, an application Close while the neighbour's resume request is still unanswered (its close request travels on the new connection where it has no alias entry) - afterwards the alias-0 stream must still send chunks and receive acks. 2-3 upstreams (the first reliable, the others reliable or unreliable) on one connection: interleaved write+flush, per-stream acks, optional close of one stream, optional outage (loud cut, writes of any stream before it is noticed, all streams resume: unreliable ones answered first), more traffic, closes in random order; each stream's observables are compared with its solo run through the same history. non-trivial = every stream has a solo run to compare with; distinct = distinct Coq case terms"
 	if err := w.Flush(*seed, *tier, rule, false, nil); err != nil {
 		fmt.Fprintln(os.Stderr, err)
 		os.Exit(2)
